@@ -114,8 +114,11 @@ def h_quad(cx, family, pdesc, adesc, bdesc):
             o, s = lib.mk_covobs(cx, tag, desc[1], desc[2])
         return o, s, True
     P = [mk(d, 'p%d' % i) for i, d in enumerate(pdesc)]
-    a, sa, a_obs = mk(adesc, 'a')
-    b, sb, b_obs = mk(bdesc, 'b')
+    # 'p<i>' as a limit: the very same observable object as parameter i (it then occurs twice among the observables quad differentiates with respect to)
+    a, sa, a_obs = P[int(adesc[1:])] if isinstance(adesc, str) else mk(adesc, 'a')
+    b, sb, b_obs = P[int(bdesc[1:])] if isinstance(bdesc, str) else mk(bdesc, 'b')
+    if cx.mode == 'sym':
+        cx.patch(pe.Obs, '__hash__', lambda self: id(self) & 0xFFFFFFFF)      # hashing of symbolic data is not modelled: distinct objects get distinct hashes
     pv = [s.value for _, s, _ in P]
     calls = []
     if cx.mode == 'sym':
@@ -201,7 +204,8 @@ def jobs(tier, seed):
             ([E] * np_, 0.5, 2.0), ([E, F_, Ei][:np_], 0.5, 2.0), ([E, 1.5, 0.25][:np_], 0.5, 2.0), ([1.5, E, 0.75][:np_], E, 2.0),
             ([E, F_, 0.5][:np_], F_, Ei), ([0.5, 1.5, 2.0][:np_], E, F_), ([0.5, 1.5, 2.0][:np_], 0.0, E), ([CV, E, M][:np_], 0.5, CV),
             ([0.5, 1.5, 2.0][:np_], 0.25, 1.75),
-            ([2, E, F_][:np_], 0.5, 2.0), ([3, 0.5, E][:np_], E, 2),          # plain Python ints among the parameters / limits (numpy infers dtypes from first elements)
+            ([2, E, F_][:np_], 0.5, 2.0), ([3, 0.5, E][:np_], E, 2),
+            ([E, F_, 0.5][:np_], 0.5, 'p0'), ([CV, E, 1.0][:np_], 'p0', 2.0), ([E, E, E][:np_], 'p1', 'p0'),        # the same observable as parameter and as limit          # plain Python ints among the parameters / limits (numpy infers dtypes from first elements)
         ]
         for p, a, b in cases:
             add('quad', family=fam, pdesc=p, adesc=a, bdesc=b)
